@@ -16,12 +16,33 @@ if [ "$REPO" != "/repo" ]; then
 	cp go.sum go.alt.sum
 	MODFLAG="-modfile=go.alt.mod"
 fi
+# The checks are built with an overlay (tools/mkoverlay): the sync / sync/atomic shim is mapped into the
+# library's module and every file of the library that imports sync or contains a go statement is replaced by a
+# rewritten copy, so that locks, atomics, wait groups and goroutines of the library - present or introduced by a
+# change - are scheduling points / threads of the controlled scheduler. If the rewritten tree does not compile
+# (a construct the rewriter does not handle), the build falls back: go statements left alone, then no overlay.
+OV="$HERE/engine/bin/ov"
+gobuild() { # gobuild <out> [extra flags]
+	out=$1; shift
+	: > bin.build.log
+	if [ -x bin/mkoverlay ] || go build -o bin/mkoverlay ./tools/mkoverlay >>bin.build.log 2>&1; then
+		for mode in "" "-nogo"; do
+			if ./bin/mkoverlay -repo "$REPO" -shim "$HERE/engine/_shim" -out "$OV" $mode >>bin.build.log 2>&1 &&
+				go build $MODFLAG "$@" -tags "verif vsync" -overlay "$OV/overlay.json" -o "$out" . >>bin.build.log 2>&1; then
+				return 0
+			fi
+		done
+	fi
+	echo '{"mode":"none"}' > "$OV/overlay.stats.json" 2>/dev/null
+	go build $MODFLAG "$@" -tags verif -o "$out" . >>bin.build.log 2>&1
+}
 build() {
-	mkdir -p bin "$HERE/evidence"
-	go build $MODFLAG -tags verif -o bin/qmc . >bin.build.log 2>&1 || { cat bin.build.log >&2; echo "BUILD FAILED (the tree under $REPO does not compile with -tags verif)" >&2; exit 2; }
+	mkdir -p bin "$OV" "$HERE/evidence"
+	go build -o bin/mkoverlay ./tools/mkoverlay >/dev/null 2>&1
+	gobuild bin/qmc || { cat bin.build.log >&2; echo "BUILD FAILED (the tree under $REPO does not compile with -tags verif)" >&2; exit 2; }
 }
 buildrace() {
-	go build $MODFLAG -race -tags verif -o bin/qmc-race . >bin.build.log 2>&1 || { cat bin.build.log >&2; echo "RACE BUILD FAILED" >&2; exit 2; }
+	gobuild bin/qmc-race -race || { cat bin.build.log >&2; echo "RACE BUILD FAILED" >&2; exit 2; }
 }
 case "$1" in
 setup)
